@@ -40,7 +40,7 @@ func (o goMapObject) toKey(name string) reflect.Value {
 func (o goMapObject) toValue(value Value) reflect.Value {
 	reflectValue, err := value.toReflectValue(o.valueType)
 	if err != nil {
-		panic(err)
+		panic(conversionPanic(err))
 	}
 	return reflectValue
 }
